@@ -249,3 +249,16 @@ Definition histogram_api (eng : engine) (a : api) (x : list float) (lo hi : opti
   | Some m => histogram eng x lo hi m
   | None => match limits x (argsort x) lo hi with Err e => Err e | Ok _ => Err EValue end
   end.
+
+(* ------------------------------------------------------------ without reverse indices *)
+(* rev=False (and no weights / second variable): both engines run the same loop with dorev off,
+   i.e. only  hist[binnum] += 1  for the data with a valid bin number. *)
+Fixpoint hist_loop (bn : Z -> Z) (nbin : Z) (s : list Z) (hist : list Z) : list Z :=
+  match s with
+  | [] => hist
+  | k :: ss =>
+      let b := bn k in
+      if valid_bin nbin b then hist_loop bn nbin ss (zset hist b (zget hist b + 1))
+      else hist_loop bn nbin ss hist
+  end.
+Definition hist_norev (bn : Z -> Z) (nbin : Z) (s : list Z) : list Z := hist_loop bn nbin s (zeros nbin).
